@@ -2,6 +2,8 @@
 // the program under test contains the tokens), and constant/value-driven deduction (make_*, CTAD).
 #include "describe.hpp"
 
+#include <cctype>
+
 using namespace vf;
 using namespace cnl::literals;
 
@@ -44,6 +46,19 @@ inline std::vector<std::string> tokens(std::uint64_t salt)
                     }
                     std::string t = std::string(b.prefix) + d;
                     out.push_back(t);
+                    if (b.base == 16 && (fill == 1 || fill == 3)) {
+                        // upper-case digits and prefix, both signs
+                        std::string u = t;
+                        for (char& c : u) {
+                            c = static_cast<char>(std::toupper(static_cast<unsigned char>(c)));
+                        }
+                        out.push_back(u);
+                        out.push_back("-" + u);
+                        out.push_back("-0x" + u.substr(2));
+                    }
+                    if (b.base == 2 && fill == 3) {
+                        out.push_back("-0B" + d);
+                    }
                     if (fill == 3) {
                         out.push_back("-" + t);
                         // separators at the chunk edges (counted from the right)
